@@ -364,6 +364,21 @@ Section Stack.
                  then do s' <- walk_member al d pref_doc warn (fst cur) x; Ok (fst s', wapp (snd cur) (snd s')) else Ok cur) defs (Err e) = Err e.
   Proof. induction defs; cbn; auto. Qed.
 
+  Lemma module_fold_keeps defs : forall s1 w1 s2 w2,
+    fold_left (fun acc x => do cur <- acc;
+                 if module_child x && negb (is_placeholder x)
+                 then do s' <- walk_member al d pref_doc warn (fst cur) x; Ok (fst s', wapp (snd cur) (snd s')) else Ok cur) defs (Ok (s1, w1)) = Ok (s2, w2) ->
+    vs_modules s2 = vs_modules s1.
+  Proof.
+    induction defs as [|x r IH]; intros s1 w1 s2 w2 EF; cbn [fold_left] in EF; [inv_ok; reflexivity|].
+    cbn [bind fst snd] in EF. destruct (module_child x && negb (is_placeholder x)); [|eapply IH; exact EF].
+    destruct (walk_member al d pref_doc warn s1 x) as [[sx wx]|] eqn:EX; cbn [bind fst snd] in EF; [|rewrite fold_err_module in EF; discriminate].
+    rewrite (IH _ _ _ _ EF). apply walk_member_pres in EX. destruct EX as [_ [KM _]]. exact KM.
+  Qed.
+
+  Lemma enter_module_modules st m : vs_modules (enter_module st m) = vs_modules st.
+  Proof. unfold enter_module. destruct (imports_of m). reflexivity. Qed.
+
   (* a module: its own frame is pushed, the members leave it in place, it is popped into the module dictionary *)
   Theorem walk_module_adds st m st' w :
     walk_module al d pref_doc warn st m = Ok (st', w) ->
@@ -851,3 +866,275 @@ Theorem walk_member_single_owner : forall al d pref_doc warn m st st' w top rest
   walk_member al d pref_doc warn st m = Ok (st', w) -> vs_stack st = top :: rest -> (forall f, top <> FFunc f) ->
   exists top', vs_stack st' = top' :: rest /\ hdr_eq top top'.
 Proof. intros. destruct (walk_member_exact al d pref_doc warn m st st' w top rest) as [t [e [A [B _]]]]; eauto. Qed.
+
+(* ======================================================================================================== *)
+(* C18, analyzer side: what is recorded for a module does not depend on the modules, classes and functions      *)
+(* registered before it - only on its own tree, the re-export map, the alias table and the docstring answers     *)
+(* ======================================================================================================== *)
+(* the part of the state a node reads: the stack, the re-export map and the current-module fields;
+   the dictionaries of registered declarations are write-only *)
+Definition core (st : vstate) : vstate :=
+  {| vs_modules := []; vs_classes := []; vs_rmap := vs_rmap st; vs_functions := []; vs_results := []; vs_params := [];
+     vs_attrs := []; vs_enums := []; vs_enum_insts := []; vs_stack := vs_stack st; vs_modfull := vs_modfull st;
+     vs_modname := vs_modname st |}.
+
+Definition rcore {B} (r : res (vstate * B)) : res (list frame * list (str * list rmod) * str * str * B) :=
+  match r with
+  | Ok (s, b) => Ok (vs_stack s, vs_rmap s, vs_modfull s, vs_modname s, b)
+  | Err e => Err e
+  end.
+Definition rcore1 (r : res vstate) : res (list frame * list (str * list rmod) * str * str) :=
+  match r with
+  | Ok s => Ok (vs_stack s, vs_rmap s, vs_modfull s, vs_modname s)
+  | Err e => Err e
+  end.
+
+Section Local.
+  Variables (al : aliases) (d : docs) (pref_doc warn : bool).
+
+  Ltac binds := repeat (match goal with
+                        | |- context [bind ?X _] => destruct X; cbn [bind]; try reflexivity
+                        | |- context [let '(_, _) := ?X in _] => destruct X
+                        end).
+
+  Lemma enter_func_core st f : rcore (enter_func al d pref_doc warn (core st) f) = rcore (enter_func al d pref_doc warn st f).
+  Proof.
+    unfold enter_func, is_public, tenv_of, bottom_module, id_from_stack, check_publicity_in_reexports, parse_parameter.
+    cbn [core vs_stack vs_rmap vs_modfull vs_modname]. binds; reflexivity.
+  Qed.
+
+  Lemma enter_class_core st c : rcore (enter_class al d (core st) c) = rcore (enter_class al d st c).
+  Proof.
+    unfold enter_class, is_public, tenv_of, bottom_module, id_from_stack, check_publicity_in_reexports.
+    cbn [core vs_stack vs_rmap vs_modfull vs_modname]. binds; reflexivity.
+  Qed.
+
+  Lemma enter_enum_core st c : rcore1 (enter_enum d (core st) c) = rcore1 (enter_enum d st c).
+  Proof. unfold enter_enum, id_from_stack. cbn [core vs_stack]. binds; reflexivity. Qed.
+
+  Lemma enter_assign_core st lvs ut : rcore (enter_assign al d (core st) lvs ut) = rcore (enter_assign al d st lvs ut).
+  Proof.
+    unfold enter_assign, tenv_of, bottom_module. cbn [core vs_stack vs_modfull].
+    destruct (match rev (vs_stack st) with FModule m :: _ => Ok m | _ => Err TypeError end); cbn [bind]; [|reflexivity].
+    match goal with |- rcore (bind ?X _) = rcore (bind ?Y _) => assert (EQ : X = Y) end.
+    { (* the attributes are computed from the stack, the re-export map and the current-module fields only *)
+      apply f_equal. reflexivity. }
+    rewrite EQ. binds; reflexivity.
+  Qed.
+
+  Lemma leave_func_core st : rcore1 (leave_func (core st)) = rcore1 (leave_func st).
+  Proof.
+    unfold leave_func. cbn [core vs_stack]. destruct (vs_stack st) as [|[m|c|f|e|i] rest]; try reflexivity.
+    destruct rest; reflexivity.
+  Qed.
+  Lemma leave_class_core st : rcore1 (leave_class (core st)) = rcore1 (leave_class st).
+  Proof.
+    unfold leave_class. cbn [core vs_stack]. destruct (vs_stack st) as [|[m|c|f|e|i] rest]; try reflexivity.
+    destruct rest as [|[m|p|f|e|i] r']; reflexivity.
+  Qed.
+  Lemma leave_enum_core st : rcore1 (leave_enum (core st)) = rcore1 (leave_enum st).
+  Proof.
+    unfold leave_enum. cbn [core vs_stack]. destruct (vs_stack st) as [|[m|c|f|e|i] rest]; try reflexivity.
+    destruct rest as [|[m|p|f|e'|i] r']; reflexivity.
+  Qed.
+  Lemma leave_module_core st : rcore1 (leave_module (core st)) = rcore1 (leave_module st).
+  Proof. unfold leave_module. cbn [core vs_stack]. destruct (vs_stack st) as [|[m|c|f|e|i] rest]; reflexivity. Qed.
+
+  Lemma assign_step_stack it stack A I A' I' :
+    match assign_step (Ok (stack, A, I)) it, assign_step (Ok (stack, A', I')) it with
+    | Ok o, Ok o' => fst (fst o) = fst (fst o')
+    | Err e, Err e' => e = e'
+    | _, _ => False
+    end.
+  Proof.
+    unfold assign_step. cbn [bind]. destruct it as [a|id n]; destruct stack as [|[m|c|f|e|i] r2]; try reflexivity.
+    destruct r2 as [|[m|c|f'|e|i] r3]; reflexivity.
+  Qed.
+
+  Lemma assign_fold_stack items : forall stack A I A' I',
+    match fold_left assign_step items (Ok (stack, A, I)), fold_left assign_step items (Ok (stack, A', I')) with
+    | Ok o, Ok o' => fst (fst o) = fst (fst o')
+    | Err e, Err e' => e = e'
+    | _, _ => False
+    end.
+  Proof.
+    induction items as [|it r IH]; intros stack A I A' I'; cbn [fold_left]; [reflexivity|].
+    pose proof (assign_step_stack it stack A I A' I') as ST.
+    destruct (assign_step (Ok (stack, A, I)) it) as [[[s1 a1] i1]|e1], (assign_step (Ok (stack, A', I')) it) as [[[s2 a2] i2]|e2];
+      cbn in ST; try contradiction.
+    - subst s2. apply IH.
+    - rewrite !assign_fold_err. exact ST.
+  Qed.
+
+  Lemma leave_assign_core st : rcore1 (leave_assign (core st)) = rcore1 (leave_assign st).
+  Proof.
+    unfold leave_assign. cbn [core vs_stack vs_attrs vs_enum_insts]. destruct (vs_stack st) as [|[m|c|f|e|items] rest]; try reflexivity.
+    destruct rest as [|parent r']; [reflexivity|].
+    pose proof (assign_fold_stack items (parent :: r') [] [] (vs_attrs st) (vs_enum_insts st)) as FS.
+    destruct parent as [m|c|f|e|i]; try reflexivity;
+      (change (fun (acc : res (list frame * list str * list str)) (it : aitem) => _) with assign_step;
+       destruct (fold_left assign_step items (Ok (_, [], []))) as [[[s1 a1] i1]|e1],
+                (fold_left assign_step items (Ok (_, vs_attrs st, vs_enum_insts st))) as [[[s2 a2] i2]|e2];
+       cbn in FS; try contradiction; cbn [bind rcore1 vs_stack vs_rmap vs_modfull vs_modname]; [subst s2; reflexivity|congruence]).
+  Qed.
+
+  Definition same_core (a b : vstate) : Prop :=
+    vs_stack a = vs_stack b /\ vs_rmap a = vs_rmap b /\ vs_modfull a = vs_modfull b /\ vs_modname a = vs_modname b.
+  Lemma core_eq a b : same_core a b -> core a = core b.
+  Proof. intros [H1 [H2 [H3 H4]]]. unfold core. rewrite H1, H2, H3, H4. reflexivity. Qed.
+
+  Lemma rcore_inv {B} (r r' : res (vstate * B)) : rcore r = rcore r' ->
+    match r, r' with
+    | Ok (s, x), Ok (s', x') => same_core s s' /\ x = x'
+    | Err e, Err e' => e = e'
+    | _, _ => False
+    end.
+  Proof.
+    destruct r as [[s x]|e], r' as [[s' x']|e']; cbn; intro H; try discriminate; [|congruence].
+    inversion H. unfold same_core. auto.
+  Qed.
+  Lemma rcore1_inv (r r' : res vstate) : rcore1 r = rcore1 r' ->
+    match r, r' with
+    | Ok s, Ok s' => same_core s s'
+    | Err e, Err e' => e = e'
+    | _, _ => False
+    end.
+  Proof.
+    destruct r as [s|e], r' as [s'|e']; cbn; intro H; try discriminate; [|congruence].
+    inversion H. unfold same_core. auto.
+  Qed.
+  Lemma rcore_of_same {B} s s' (x : B) : same_core s s' -> rcore (Ok (s, x)) = rcore (Ok (s', x)).
+  Proof. intros [H1 [H2 [H3 H4]]]. cbn. congruence. Qed.
+
+  Lemma rcore_bind {B C} (r1 r2 : res (vstate * B)) (k1 k2 : vstate * B -> res (vstate * C)) :
+    rcore r1 = rcore r2 -> (forall s s' x, same_core s s' -> rcore (k1 (s, x)) = rcore (k2 (s', x))) ->
+    rcore (bind r1 k1) = rcore (bind r2 k2).
+  Proof.
+    intros E K. apply rcore_inv in E. destruct r1 as [[s x]|e1], r2 as [[s' x']|e2]; try contradiction; cbn [bind].
+    - destruct E as [E1 E2]. subst x'. apply K. exact E1.
+    - cbn. congruence.
+  Qed.
+  Lemma rcore1_bind {C} (r1 r2 : res vstate) (k1 k2 : vstate -> res (vstate * C)) :
+    rcore1 r1 = rcore1 r2 -> (forall s s', same_core s s' -> rcore (k1 s) = rcore (k2 s')) ->
+    rcore (bind r1 k1) = rcore (bind r2 k2).
+  Proof.
+    intros E K. apply rcore1_inv in E. destruct r1 as [s|e1], r2 as [s'|e2]; try contradiction; cbn [bind].
+    - apply K. exact E.
+    - cbn. congruence.
+  Qed.
+
+  Lemma enter_func_resp a b f : same_core a b -> rcore (enter_func al d pref_doc warn a f) = rcore (enter_func al d pref_doc warn b f).
+  Proof. intro H. rewrite <- (enter_func_core a), <- (enter_func_core b), (core_eq a b H). reflexivity. Qed.
+  Lemma enter_class_resp a b c : same_core a b -> rcore (enter_class al d a c) = rcore (enter_class al d b c).
+  Proof. intro H. rewrite <- (enter_class_core a), <- (enter_class_core b), (core_eq a b H). reflexivity. Qed.
+  Lemma enter_enum_resp a b c : same_core a b -> rcore1 (enter_enum d a c) = rcore1 (enter_enum d b c).
+  Proof. intro H. rewrite <- (enter_enum_core a), <- (enter_enum_core b), (core_eq a b H). reflexivity. Qed.
+  Lemma enter_assign_resp a b l u : same_core a b -> rcore (enter_assign al d a l u) = rcore (enter_assign al d b l u).
+  Proof. intro H. rewrite <- (enter_assign_core a), <- (enter_assign_core b), (core_eq a b H). reflexivity. Qed.
+  Lemma leave_func_resp a b : same_core a b -> rcore1 (leave_func a) = rcore1 (leave_func b).
+  Proof. intro H. rewrite <- (leave_func_core a), <- (leave_func_core b), (core_eq a b H). reflexivity. Qed.
+  Lemma leave_class_resp a b : same_core a b -> rcore1 (leave_class a) = rcore1 (leave_class b).
+  Proof. intro H. rewrite <- (leave_class_core a), <- (leave_class_core b), (core_eq a b H). reflexivity. Qed.
+  Lemma leave_enum_resp a b : same_core a b -> rcore1 (leave_enum a) = rcore1 (leave_enum b).
+  Proof. intro H. rewrite <- (leave_enum_core a), <- (leave_enum_core b), (core_eq a b H). reflexivity. Qed.
+  Lemma leave_assign_resp a b : same_core a b -> rcore1 (leave_assign a) = rcore1 (leave_assign b).
+  Proof. intro H. rewrite <- (leave_assign_core a), <- (leave_assign_core b), (core_eq a b H). reflexivity. Qed.
+  Lemma leave_module_resp a b : same_core a b -> rcore1 (leave_module a) = rcore1 (leave_module b).
+  Proof. intro H. rewrite <- (leave_module_core a), <- (leave_module_core b), (core_eq a b H). reflexivity. Qed.
+
+  Lemma assign_pair_resp a b l u (w : W) : same_core a b ->
+    rcore (do s1 <- enter_assign al d a l u; do s2 <- leave_assign (fst s1); Ok (s2, wapp w (snd s1))) =
+    rcore (do s1 <- enter_assign al d b l u; do s2 <- leave_assign (fst s1); Ok (s2, wapp w (snd s1))).
+  Proof.
+    intro H. apply rcore_bind; [apply enter_assign_resp; exact H|]. intros s s' x Hs. cbn [fst snd].
+    apply rcore1_bind; [apply leave_assign_resp; exact Hs|]. intros t t' Ht. apply rcore_of_same. exact Ht.
+  Qed.
+
+  Lemma walk_func_resp a b f : same_core a b -> rcore (walk_func al d pref_doc warn a f) = rcore (walk_func al d pref_doc warn b f).
+  Proof.
+    intro H. unfold walk_func. apply rcore_bind; [apply enter_func_resp; exact H|]. intros s s' x Hs.
+    apply rcore_bind.
+    - destruct (str_eqb (fn_name f) (K"__init__")); [|apply rcore_of_same; exact Hs].
+      assert (G : forall body (i1 i2 : res (vstate * W)), rcore i1 = rcore i2 ->
+                rcore (fold_left (fun acc s => do cur <- acc;
+                        match s with
+                        | BAssign lvs ut => do s1 <- enter_assign al d (fst cur) lvs ut; do s2 <- leave_assign (fst s1); Ok (s2, wapp (snd cur) (snd s1))
+                        | _ => Ok cur
+                        end) body i1) =
+                rcore (fold_left (fun acc s => do cur <- acc;
+                        match s with
+                        | BAssign lvs ut => do s1 <- enter_assign al d (fst cur) lvs ut; do s2 <- leave_assign (fst s1); Ok (s2, wapp (snd cur) (snd s1))
+                        | _ => Ok cur
+                        end) body i2)).
+      { induction body as [|st0 r IH]; intros i1 i2 EI; cbn [fold_left]; [exact EI|]. apply IH.
+        apply rcore_bind; [exact EI|]. intros t t' y Ht. cbn [fst snd]. destruct st0; try (apply rcore_of_same; exact Ht).
+        apply assign_pair_resp. exact Ht. }
+      apply G. apply rcore_of_same. exact Hs.
+    - intros t t' y Ht. cbn [fst snd]. apply rcore1_bind; [apply leave_func_resp; exact Ht|].
+      intros u u' Hu. apply rcore_of_same. exact Hu.
+  Qed.
+
+  Lemma walk_member_resp : forall m a b, same_core a b ->
+    rcore (walk_member al d pref_doc warn a m) = rcore (walk_member al d pref_doc warn b m).
+  Proof.
+    induction m as [l u|f|f|n p i t|c n|n fu bs r defs IH] using cmember_ind'; intros a b H; cbn [walk_member].
+    - apply rcore_bind; [apply enter_assign_resp; exact H|]. intros s s' x Hs. cbn [fst snd].
+      apply rcore1_bind; [apply leave_assign_resp; exact Hs|]. intros t t' Ht. apply rcore_of_same. exact Ht.
+    - apply walk_func_resp; exact H.
+    - apply walk_func_resp; exact H.
+    - destruct i; [destruct p; [destruct t|]| |]; try (apply rcore_of_same; exact H); apply walk_func_resp; exact H.
+    - apply rcore_of_same; exact H.
+    - apply rcore_bind.
+      + destruct (is_enum_def _); [|apply enter_class_resp; exact H].
+        apply rcore1_bind; [apply enter_enum_resp; exact H|]. intros s s' Hs. apply rcore_of_same. exact Hs.
+      + intros s s' x Hs. apply rcore_bind.
+        * cbn [cd_defs]. generalize x. revert s s' Hs. induction IH as [|m ms Hm _ IHms]; intros s s' Hs x0; [apply rcore_of_same; exact Hs|].
+          destruct (class_child m && negb (is_placeholder m)); [|apply IHms; exact Hs]. cbn [fst snd].
+          pose proof (Hm s s' Hs) as HM. apply rcore_inv in HM.
+          destruct (walk_member al d pref_doc warn s m) as [[s1 w1]|e1], (walk_member al d pref_doc warn s' m) as [[s2 w2]|e2];
+            try contradiction; cbn [bind fst snd].
+          -- destruct HM as [HM1 HM2]. subst w2. apply IHms. exact HM1.
+          -- cbn. congruence.
+        * intros t t' y Ht. cbn [fst snd]. destruct (is_enum_def _).
+          -- apply rcore1_bind; [apply leave_enum_resp; exact Ht|]. intros u0 u' Hu. apply rcore_of_same. exact Hu.
+          -- apply rcore1_bind; [apply leave_class_resp; exact Ht|]. intros u0 u' Hu. apply rcore_of_same. exact Hu.
+  Qed.
+
+  (* the module record and the log of a module depend on the state only through the stack and the re-export map *)
+  Theorem walk_module_local a b m :
+    vs_stack a = vs_stack b -> vs_rmap a = vs_rmap b ->
+    rcore (walk_module al d pref_doc warn a m) = rcore (walk_module al d pref_doc warn b m) /\
+    (forall sa wa, walk_module al d pref_doc warn a m = Ok (sa, wa) ->
+       exists sb md, walk_module al d pref_doc warn b m = Ok (sb, wa) /\
+                     vs_modules sa = dict_set (m_id md) md (vs_modules a) /\ vs_modules sb = dict_set (m_id md) md (vs_modules b)).
+  Proof.
+    intros HS HR.
+    assert (HE : same_core (enter_module a m) (enter_module b m)).
+    { unfold enter_module, same_core. destruct (imports_of m) as [q wi]. cbn. rewrite HS, HR. auto. }
+    assert (FOLD : forall defs (i1 i2 : res (vstate * W)), rcore i1 = rcore i2 ->
+      rcore (fold_left (fun acc x => do cur <- acc;
+               if module_child x && negb (is_placeholder x)
+               then do s' <- walk_member al d pref_doc warn (fst cur) x; Ok (fst s', wapp (snd cur) (snd s')) else Ok cur) defs i1) =
+      rcore (fold_left (fun acc x => do cur <- acc;
+               if module_child x && negb (is_placeholder x)
+               then do s' <- walk_member al d pref_doc warn (fst cur) x; Ok (fst s', wapp (snd cur) (snd s')) else Ok cur) defs i2)).
+    { induction defs as [|x r IH]; intros i1 i2 EI; cbn [fold_left]; [exact EI|]. apply IH.
+      apply rcore_bind; [exact EI|]. intros s s' y Hs. cbn [fst snd].
+      destruct (module_child x && negb (is_placeholder x)); [|apply rcore_of_same; exact Hs].
+      apply rcore_bind; [apply walk_member_resp; exact Hs|]. intros t t' z Ht. cbn [fst snd]. apply rcore_of_same. exact Ht. }
+    pose proof (FOLD (mf_defs m) (Ok (enter_module a m, w0)) (Ok (enter_module b m, w0)) (rcore_of_same _ _ _ HE)) as HF.
+    split.
+    - unfold walk_module. apply rcore_bind; [exact HF|]. intros s s' x Hs. cbn [fst snd].
+      apply rcore1_bind; [apply leave_module_resp; exact Hs|]. intros t t' Ht. apply rcore_of_same. exact Ht.
+    - intros sa wa HA. unfold walk_module in *. apply rcore_inv in HF.
+      destruct (fold_left _ (mf_defs m) (Ok (enter_module a m, w0))) as [[s1 w1]|e1] eqn:F1; cbn [bind fst snd] in HA; [|discriminate].
+      destruct (fold_left _ (mf_defs m) (Ok (enter_module b m, w0))) as [[s2 w2]|e2] eqn:F2; [|contradiction].
+      destruct HF as [HC HW]. subst w2. cbn [bind fst snd].
+      destruct (leave_module s1) as [s1'|] eqn:L1; cbn [bind] in HA; [|discriminate]. inversion HA; subst; clear HA.
+      unfold leave_module in L1 |- *. destruct HC as [HC1 _]. rewrite <- HC1.
+      destruct (vs_stack s1) as [|[md|c|f|e|i] rest]; try discriminate. inversion L1; subst; clear L1. cbn [bind].
+      eexists. exists md. split; [reflexivity|]. cbn [vs_modules]. split.
+      + f_equal. rewrite (module_fold_keeps al d pref_doc warn _ _ _ _ _ F1). apply enter_module_modules.
+      + f_equal. rewrite (module_fold_keeps al d pref_doc warn _ _ _ _ _ F2). apply enter_module_modules.
+  Qed.
+End Local.
